@@ -284,15 +284,28 @@ Qed.
 
 (* ------------------------------------------------------------------ *)
 (* one I/O action                                                       *)
-Lemma io_cases a e : is_delete a = false ->
+Lemma io_cases3 a e : is_delete a = false ->
+  (exists e', io a e = (true, e') /\ e_disk e' = apply_act (e_disk e) a /\ e_acts e' = a :: e_acts e /\ e_m e' = e_m e /\
+              e_fx e' = e_fx e /\ (e_fault e = None -> e_fault e' = None)) \/
+  (exists e', io a e = (false, e') /\ e_disk e' = e_disk e /\ e_fault e' = None /\ e_m e' = e_m e /\ e_fx e' = e_fx e) \/
+  (* a BoltDB transaction reported as failed and found applied *)
+  (exists e', io a e = (false, e') /\ is_txn a = true /\ e_disk e' = apply_act (e_disk e) a /\ e_fault e' = None /\
+              e_m e' = e_m e /\ e_fx e' = e_fx e).
+Proof.
+  intros Ed. unfold io. rewrite Ed. destruct (e_fault e) as [[|k]|].
+  - destruct (is_txn a) eqn:Et, (fx_land (e_fx e)); cbn [andb];
+      [right; right; eexists; split; [reflexivity|]; cbn; auto| | |];
+      (right; left; eexists; split; [reflexivity|]; cbn; auto).
+  - left. eexists. split; [reflexivity|]. cbn. repeat split; auto. discriminate.
+  - left. eexists. split; [reflexivity|]. cbn. auto.
+Qed.
+
+Lemma io_cases a e : is_delete a = false -> is_txn a = false ->
   (exists e', io a e = (true, e') /\ e_disk e' = apply_act (e_disk e) a /\ e_acts e' = a :: e_acts e /\ e_m e' = e_m e /\
               e_fx e' = e_fx e /\ (e_fault e = None -> e_fault e' = None)) \/
   (exists e', io a e = (false, e') /\ e_disk e' = e_disk e /\ e_fault e' = None /\ e_m e' = e_m e /\ e_fx e' = e_fx e).
 Proof.
-  intros Ed. unfold io. rewrite Ed. destruct (e_fault e) as [[|k]|].
-  - right. eexists. split; [reflexivity|]. cbn. auto.
-  - left. eexists. split; [reflexivity|]. cbn. repeat split; auto. discriminate.
-  - left. eexists. split; [reflexivity|]. cbn. auto.
+  intros Ed Et. destruct (io_cases3 a e Ed) as [H|[H|(e' & _ & K & _)]]; [left; exact H|right; exact H|congruence].
 Qed.
 
 Lemma drel_rem_weaken n X d dc : drel (rem n X) d dc -> drel X d dc.
@@ -317,13 +330,17 @@ Definition nodel_act (a : act) : Prop := simple_act a /\ is_delete a = false.
 Lemma io_lock X a e ec : R X e ec -> nodel_act a ->
   io a ec = (true, io_env a ec) /\
   ((exists e', io a e = (true, e') /\ R X e' (io_env a ec) /\ e_fx e' = e_fx e) \/
-   (exists e', io a e = (false, e') /\ e_disk e' = e_disk e /\ e_fault e' = None /\ e_fx e' = e_fx e)).
+   (exists e', io a e = (false, e') /\ e_disk e' = e_disk e /\ e_fault e' = None /\ e_fx e' = e_fx e) \/
+   (exists e', io a e = (false, e') /\ is_txn a = true /\ R X e' (io_env a ec) /\
+               e_disk e' = apply_act (e_disk e) a /\ e_fault e' = None /\ e_fx e' = e_fx e)).
 Proof.
   intros (Hd & Hf) (Hs & Hnd). split; [apply io_ok; exact Hf|].
-  destruct (io_cases a e Hnd) as [(e' & E & D & _ & _ & Fx & _)|(e' & E & D & F & _ & Fx)].
+  destruct (io_cases3 a e Hnd) as [(e' & E & D & _ & _ & Fx & _)|[(e' & E & D & F & _ & Fx)|(e' & E & T & D & F & _ & Fx)]].
   - left. exists e'. split; [exact E|]. split; [|exact Fx]. split; [|reflexivity]. rewrite D. cbn [io_env e_disk].
     apply drel_act_simple; assumption.
-  - right. exists e'. auto.
+  - right. left. exists e'. auto.
+  - right. right. exists e'. split; [exact E|]. split; [exact T|]. split; [|auto].
+    split; [|reflexivity]. rewrite D. cbn [io_env e_disk]. apply drel_act_simple; assumption.
 Qed.
 
 Lemma io_lock_write X n off l b e ec : R X e ec -> (In n X -> wguard (e_disk e) n off) ->
@@ -332,7 +349,7 @@ Lemma io_lock_write X n off l b e ec : R X e ec -> (In n X -> wguard (e_disk e) 
    (exists e', io (AWrite n off l b) e = (false, e') /\ e_disk e' = e_disk e /\ e_fault e' = None)).
 Proof.
   intros (Hd & Hf) Hg. split; [apply io_ok; exact Hf|].
-  destruct (io_cases (AWrite n off l b) e eq_refl) as [(e' & E & D & _)|(e' & E & D & F & _)].
+  destruct (io_cases (AWrite n off l b) e eq_refl eq_refl) as [(e' & E & D & _)|(e' & E & D & F & _)].
   - left. exists e'. split; [exact E|]. split; [|reflexivity]. rewrite D. cbn [io_env e_disk].
     apply drel_write; assumption.
   - right. exists e'. auto.
@@ -344,7 +361,7 @@ Lemma io_lock_sync X n e ec : R X e ec -> ~ In n X ->
    (exists e', io (ASync n) e = (false, e') /\ e_disk e' = e_disk e /\ e_fault e' = None)).
 Proof.
   intros (Hd & Hf) Hg. split; [apply io_ok; exact Hf|].
-  destruct (io_cases (ASync n) e eq_refl) as [(e' & E & D & _)|(e' & E & D & F & _)].
+  destruct (io_cases (ASync n) e eq_refl eq_refl) as [(e' & E & D & _)|(e' & E & D & F & _)].
   - left. exists e'. split; [exact E|]. split; [|reflexivity]. rewrite D. cbn [io_env e_disk].
     apply drel_sync; assumption.
   - right. exists e'. auto.
@@ -433,13 +450,13 @@ Proof.
   - intros E1 E2. inversion E1; inversion E2; subst. split; [apply aext_refl|]. split; [apply HR|]. left. auto.
   - pose proof (drel_lookup_none X _ _ (name_of si) (proj1 HR)) as Hn.
     destruct (lookup (name_of si) (dk_files (e_disk e))) as [f|] eqn:Ef, (lookup (name_of si) (dk_files (e_disk ec))) as [g|] eqn:Eg.
-    + destruct (io_lock X (AFail (ACreate (name_of si) (si_size_limit si))) e ec HR (conj I eq_refl)) as (Ec & [(e1 & Er & HR1 & _)|(e1 & Er & D & F & _)]);
+    + destruct (io_lock X (AFail (ACreate (name_of si) (si_size_limit si))) e ec HR (conj I eq_refl)) as (Ec & [(e1 & Er & HR1 & _)|[(e1 & Er & D & F & _)|(e1 & _ & K & _)]]); [| |discriminate K];
         rewrite Ec, Er; intros E1 E2; inversion E1; inversion E2; subst;
         (split; [apply aext_io|]); (split; [reflexivity|]); left; (split; [reflexivity|]); [exact HR1|].
       split; [|reflexivity]. rewrite D. cbn [io_env e_disk apply_act]. apply HR.
     + exfalso. destruct Hn as (_ & Hn). specialize (Hn eq_refl). discriminate.
     + exfalso. destruct Hn as (Hn & _). specialize (Hn eq_refl). discriminate.
-    + destruct (io_lock X (ACreate (name_of si) (si_size_limit si)) e ec HR (conj I eq_refl)) as (Ec & [(e1 & Er & HR1 & _)|(e1 & Er & D & F & Fx)]);
+    + destruct (io_lock X (ACreate (name_of si) (si_size_limit si)) e ec HR (conj I eq_refl)) as (Ec & [(e1 & Er & HR1 & _)|[(e1 & Er & D & F & Fx)|(e1 & _ & K & _)]]); [| |discriminate K];
         rewrite Ec, Er; intros E1 E2; inversion E1; inversion E2; subst;
         (split; [apply aext_io|]); (split; [reflexivity|]).
       * left. auto.
@@ -738,21 +755,90 @@ Qed.
 Definition dels_of (defer : bool) (rc : result) (t : txn) : list fname :=
   match rc with ROk => if defer then [] else tx_delete t | _ => [] end.
 
+(* the real run stopped (its commit was reported as failed and found applied, nothing was
+   created) where the shadow run went on to its trailing deletions *)
+Definition landed (X : list fname) (ns : list fname) (ec0 e' ec' : env) : Prop :=
+  exists ecp, R X e' ecp /\ ec' = delete_files ns ecp /\ aext ec0 ecp.
+
+Lemma landed_shift X ns ec0 ec1 e' ec' : aext ec0 ec1 -> landed X ns ec1 e' ec' -> landed X ns ec0 e' ec'.
+Proof.
+  intros Ha (ecp & H & E & A). exists ecp. split; [exact H|]. split; [exact E|]. eapply aext_trans; eauto.
+Qed.
+
+(* what the real run of a failed state transaction leaves: the WAL refuses writes, and
+   A  nothing changed on the disk, or
+   B  the metadata is committed and a new tail file is missing (its creation failed, or the
+      commit itself was reported as failed and found applied), or
+   C  the commit of a transaction that creates nothing was reported as failed and found
+      applied, or
+   D  the shadow run could not create the new tail either (excluded later: it ends failed) *)
+Definition commit_failed (X : list fname) (defer : bool) (t : txn) (e ec : env) (e' : env)
+  (rc : result) (wc' : wal) (ec' : env) : Prop :=
+  e_disk e' = e_disk e \/
+  (rc = ROk /\ tx_create t <> None /\
+   post_commit X ec ec' (e_disk e') (tx_ps t) /\
+   dk_meta (e_disk ec') = Some (tx_ps t) /\
+   (defer = false -> forall n, In n (tx_delete t) -> lookup n (dk_files (e_disk ec')) = None) /\
+   NoDup (map fst (dk_files (e_disk ec')))) \/
+  (rc = ROk /\ tx_create t = None /\ e_disk e' = apply_act (e_disk e) (ACommit (tx_ps t)) /\
+   post_commit X ec ec' (e_disk e') (tx_ps t) /\ dk_meta (e_disk ec') = Some (tx_ps t) /\
+   landed X (dels_of defer ROk t) ec e' ec' /\
+   st_segs wc' = tx_segs t /\ st_tail wc' = tx_tail t) \/
+  (rc <> ROk /\ st_failed wc' = true).
+
 Lemma mutate_gen_lock X defer w t e ec r w' e' dl rc wc' ec' dlc : R X e ec ->
   mutate_gen defer w t e = (r, w', e', dl) -> mutate_gen defer w t ec = (rc, wc', ec', dlc) ->
   (r = rc /\ w' = wc' /\ dl = dlc /\ Rd X (dels_of defer rc t) ec e' ec' /\
    (rc <> ROk -> st_failed wc' = true)) \/
-  (e_fault e' = None /\ r = RErrIO /\ dl = [] /\
-   ((w' = w /\ e_disk e' = e_disk e) \/
-    (rc = ROk /\ w' = set_failed w /\ tx_create t <> None /\
-     post_commit X ec ec' (e_disk e') (tx_ps t) /\
-     dk_meta (e_disk ec') = Some (tx_ps t) /\
-     (defer = false -> forall n, In n (tx_delete t) -> lookup n (dk_files (e_disk ec')) = None) /\
-     NoDup (map fst (dk_files (e_disk ec')))))).
+  (e_fault e' = None /\ r = RErrIO /\ dl = [] /\ w' = set_failed w /\
+   commit_failed X defer t e ec e' rc wc' ec').
 Proof.
-  intros HR. unfold mutate_gen. fold (tx_ps t).
-  destruct (io_lock X (ACommit (tx_ps t)) e ec HR (conj I eq_refl)) as (Ec & [(e1 & Er & HR1 & _)|(e1 & Er & D & F & _)]); rewrite Ec, Er; cbn [negb].
-  2:{ intros E1 _. inversion E1; subst. right. auto 10. }
+  intros HR. unfold mutate_gen, commit_failed. fold (tx_ps t). fold (set_failed w).
+  destruct (io_lock X (ACommit (tx_ps t)) e ec HR (conj I eq_refl))
+    as (Ec & [(e1 & Er & HR1 & _)|[(e1 & Er & D & F & _)|(e1 & Er & _ & HR1 & D & F & _)]]); rewrite Ec, Er; cbn [negb].
+  2:{ intros E1 _. inversion E1; subst. right. split; [exact F|]. split; [reflexivity|]. split; [reflexivity|].
+      split; [reflexivity|]. left. exact D. }
+  2:{ (* the commit is reported as failed and found applied: the shadow run goes on *)
+      intros E1. inversion E1; subst. intros E2. right. split; [exact F|]. split; [reflexivity|]. split; [reflexivity|].
+      split; [reflexivity|].
+      set (ec1 := io_env (ACommit (tx_ps t)) ec) in *.
+      assert (Ha1 : aext ec ec1) by apply aext_io.
+      assert (Hpc : forall ecN, aext ec1 ecN -> post_commit X ec ecN (e_disk e') (tx_ps t)).
+      { intros ecN HaN. exists (e_disk ec1). split; [apply HR1|].
+        split; [eapply pfx_more; [apply (pfx_end ec ec1); exact Ha1|exact HaN]|].
+        split; [reflexivity|]. split; [intros n _; reflexivity|]. split; [reflexivity|].
+        intros n f Hl Hn. cbn [ec1 io_env e_disk apply_act dk_files] in Hl. congruence. }
+      destruct (tx_create t) as [si|] eqn:Etc.
+      - destruct (seg_create si ec1) as [swc ec2] eqn:Esc.
+        pose proof (sh_seg_create si ec1 swc ec2 eq_refl Esc) as Hs2.
+        destruct swc as [sw|]; [|inversion E2; subst; right; right; right; split; [discriminate|reflexivity]].
+        destruct (seg_create_some _ _ _ _ Esc) as (_ & Hfresh).
+        assert (Dc : e_disk ec2 = apply_act (e_disk ec1) (ACreate (name_of si) (si_size_limit si))).
+        { revert Esc. unfold seg_create. destruct (si_base si =? 0); [discriminate|]. rewrite Hfresh.
+          rewrite (io_ok _ _ (eq_refl : e_fault ec1 = None)). intros K; inversion K; reflexivity. }
+        assert (ND2 : NoDup (map fst (dk_files (e_disk ec2)))).
+        { rewrite Dc. cbn [apply_act dk_files]. apply update_NoDup. apply HR1. }
+        assert (Hm2 : dk_meta (e_disk ec2) = Some (tx_ps t)) by (rewrite Dc; reflexivity).
+        right. left. destruct defer; inversion E2; subst.
+        + split; [reflexivity|]. split; [discriminate|]. split; [apply Hpc; apply Hs2|]. split; [exact Hm2|].
+          split; [discriminate|exact ND2].
+        + split; [reflexivity|]. split; [discriminate|].
+          pose proof (sh_delete_files (tx_delete t) ec2 (proj2 Hs2)) as Hs3.
+          split; [apply Hpc; eapply aext_trans; [apply Hs2|apply Hs3]|].
+          rewrite (delete_files_disk _ _ (proj2 Hs2)). destruct (del_disk_meta (tx_delete t) (e_disk ec2)) as (M1 & _).
+          split; [rewrite M1; exact Hm2|]. split; [|apply del_disk_NoDup; exact ND2]. intros _ n Hin.
+          rewrite (del_disk_lookup _ _ n ND2).
+          replace (mem_name n (tx_delete t)) with true; [reflexivity|]. symmetry. apply mem_name_spec. exact Hin.
+      - right. right. left. destruct defer; inversion E2; subst; cbn [st_segs st_tail].
+        + split; [reflexivity|]. split; [reflexivity|]. split; [exact D|].
+          split; [apply Hpc; apply aext_refl|]. split; [reflexivity|].
+          split; [exists ec1; split; [exact HR1|]; split; [reflexivity|exact Ha1]|]. auto.
+        + split; [reflexivity|]. split; [reflexivity|]. split; [exact D|].
+          pose proof (sh_delete_files (tx_delete t) ec1 eq_refl) as Hs3.
+          split; [apply Hpc; apply Hs3|].
+          rewrite (delete_files_disk _ _ (eq_refl : e_fault ec1 = None)). destruct (del_disk_meta (tx_delete t) (e_disk ec1)) as (M1 & _).
+          split; [rewrite M1; reflexivity|].
+          split; [exists ec1; split; [exact HR1|]; split; [reflexivity|exact Ha1]|]. auto. }
   set (ec1 := io_env (ACommit (tx_ps t)) ec) in *.
   assert (Ha1 : aext ec ec1) by apply aext_io.
   destruct (tx_create t) as [si|] eqn:Etc.
@@ -766,7 +852,7 @@ Proof.
       * intros E1 E2; inversion E1; inversion E2; subst. left.
         split; [reflexivity|]. split; [reflexivity|]. split; [reflexivity|]. split; [apply Rd_of_R; exact HR2|reflexivity].
     + intros E1. inversion E1; subst. intros E2. right.
-      split; [exact F|]. split; [reflexivity|]. split; [reflexivity|]. right.
+      split; [exact F|]. split; [reflexivity|]. split; [reflexivity|]. split; [reflexivity|]. right. left.
       assert (ND2 : NoDup (map fst (dk_files (e_disk ec2)))).
       { rewrite Dc. cbn [apply_act dk_files]. apply update_NoDup. apply HR1. }
       assert (Hm2 : dk_meta (e_disk ec2) = Some (tx_ps t)) by (rewrite Dc; reflexivity).
@@ -780,7 +866,7 @@ Proof.
           split; [rewrite M1; exact Hm2|]. split; [|apply del_disk_NoDup; exact ND2]. intros _ n Hin. rewrite (del_disk_lookup _ _ n ND2).
           replace (mem_name n (tx_delete t)) with true; [reflexivity|]. symmetry. apply mem_name_spec. exact Hin. }
       destruct Hsh as (Hsh & -> & Hm' & Hdel' & ND').
-      split; [reflexivity|]. split; [reflexivity|]. split; [discriminate|].
+      split; [reflexivity|]. split; [discriminate|].
       assert (Hsl : seg_create si ec1 = (Some (new_wseg si), ec2)) by exact Esc.
       destruct (seg_create_some _ _ _ _ Hsl) as (_ & Hfresh).
       destruct Hreal as [Hd|Hd].
@@ -809,21 +895,13 @@ Lemma mutate_lock X w t e ec r w' e' rc wc' ec' : R X e ec ->
   mutate w t e = (r, w', e') -> mutate w t ec = (rc, wc', ec') ->
   (r = rc /\ w' = wc' /\ Rd X (dels_of false rc t) ec e' ec' /\
    (rc <> ROk -> st_failed wc' = true)) \/
-  (e_fault e' = None /\ r = RErrIO /\
-   ((w' = w /\ e_disk e' = e_disk e) \/
-    (rc = ROk /\ w' = set_failed w /\ tx_create t <> None /\
-     post_commit X ec ec' (e_disk e') (tx_ps t) /\
-     dk_meta (e_disk ec') = Some (tx_ps t) /\
-     (forall n, In n (tx_delete t) -> lookup n (dk_files (e_disk ec')) = None) /\
-     NoDup (map fst (dk_files (e_disk ec')))))).
+  (e_fault e' = None /\ r = RErrIO /\ w' = set_failed w /\ commit_failed X false t e ec e' rc wc' ec').
 Proof.
   intros HR. unfold mutate.
   destruct (mutate_gen false w t e) as [[[r0 w0] e0] d0] eqn:E1.
   destruct (mutate_gen false w t ec) as [[[rc0 wc0] ec0] dc0] eqn:E2.
   intros K1 K2; inversion K1; inversion K2; subst.
-  destruct (mutate_gen_lock X false w t e ec _ _ _ _ _ _ _ _ HR E1 E2) as [(A & B & C & D & F)|(A & B & C & [D|(D0 & D1 & D2 & D3 & D7 & D8 & D9)])].
+  destruct (mutate_gen_lock X false w t e ec _ _ _ _ _ _ _ _ HR E1 E2) as [(A & B & C & D & F)|(A & B & C & D & F)].
   - left. auto.
   - right. auto.
-  - right. split; [exact A|]. split; [exact B|]. right. split; [exact D0|]. split; [exact D1|]. split; [exact D2|].
-    split; [exact D3|]. split; [exact D7|]. split; [apply D8; reflexivity|exact D9].
 Qed.
